@@ -174,7 +174,7 @@ def register_p(reg, prop):
             params={"data": "Bytes"}, param_names=["data"], param_values={"cls": F}, returns=o,
             consts={"tmpls": tmpls, "se": se}, externals=ext,
             may_raise={"AnyException": "", "struct.error": "", "ValueError": "", "IndexError": ""},
-            ensures=list(ens), loops={}, frame=None, case_split=cs,
+            ensures=list(ens), loops={}, frame=None, case_split=cs, batch_post=(len(free) == 11), max_paths=(20000 if len(free) == 11 else 4000),
             doc=f"instance: section flags {nm} free, every other section flag clear; object kind "
                 + ("free" if kinds_free else "neither avatar nor primitive")))
 
